@@ -432,3 +432,63 @@ func describeSC(t TokSet, an, bn string) string {
 	}
 	return "ambiguous" + t.String()
 }
+
+// ---- R08.13 -----------------------------------------------------------------
+func c08Coalesce(c *Ctx, r *Report) {
+	r.Rule("R08.13", "the coalescing operators do what their help says: `a ?? b` is b exactly when a is absent and otherwise a itself; `a ??? b` is b exactly when a is absent or empty and otherwise a itself — evaluated abstractly for a ranging over the 12 kinds (the registry help texts 'isn't defined in the current record' / 'or has empty value' are the oracle)")
+	rs := NewRetSum(c)
+	n := 0
+	for _, op := range []struct {
+		sym, typ string
+		takesB   map[int]bool
+	}{
+		{"??", "AbsentCoalesceOperatorNode", map[int]bool{K_ABSENT: true}},
+		{"???", "EmptyCoalesceOperatorNode", map[int]bool{K_ABSENT: true, K_VOID: true}},
+	} {
+		fn := c.SSAFunc(c.LookupMethod("pkg/dsl/cst", op.typ, "Evaluate"))
+		if fn == nil {
+			r.Undecided("R08.13", op.typ, "", "Evaluate method not found")
+			continue
+		}
+		for k := 0; k < K_DIM; k++ {
+			n++
+			key := fmt.Sprintf("%s %s b", kindNames[k], op.sym)
+			ke := NewKindEval(c, rs)
+			a := AV{T: 'm', MK: k, Toks: tokset("A")}
+			b := AV{T: 'm', MK: -1, Toks: tokset("B")}
+			ke.InvokeOracle = func(x *ssa.Call) (AV, bool) {
+				if _, name, ok := fieldLoadName(x.Call.Value); ok {
+					switch name {
+					case "a":
+						return a, true
+					case "b":
+						return b, true
+					}
+				}
+				return AV{}, false
+			}
+			args := make([]AV, len(fn.Params))
+			for i, p := range fn.Params {
+				args[i] = avUnknownFor(p.Type())
+			}
+			res := ke.Eval(fn, args)
+			if res.Bailed || len(res.Results) == 0 {
+				r.Undecided("R08.13", key, c.Rel(fn.Pos()), "kind evaluation gave up")
+				continue
+			}
+			t := res.Results[0].Toks
+			want := "A"
+			if op.takesB[k] {
+				want = "B"
+			}
+			// a STRING can be the empty string at run time: ??? may take either way there
+			okCell := t.Has(want) && len(t) == 1
+			if op.sym == "???" && k == K_STRING {
+				okCell = t.SubsetOf("A", "B") && t.Has("A")
+			}
+			r.Check(okCell, "R08.13", key, c.Rel(fn.Pos()), "returns "+t.String(),
+				fmt.Sprintf("%s.Evaluate returns %s for a %s left operand; the operator is documented to give %s there", op.typ, t, kindNames[k], map[string]string{"A": "the left operand", "B": "the right operand"}[want]))
+		}
+	}
+	r.Floor("R08.13", "kinds × coalescing operators", n, 24)
+}
